@@ -8,7 +8,6 @@ import (
 	"go/constant"
 	"go/token"
 	"go/types"
-	"regexp"
 	"strconv"
 	"strings"
 )
@@ -333,13 +332,14 @@ func (fc *FnCtx) concat(st *State, a, b Val) Val {
 		return a
 	}
 	// a one-byte literal on the right: same term as a builder's WriteByte/WriteRune
-	if m := oneByteLit.FindStringSubmatch(b.T); m != nil {
-		return Val{T: "(appendbyte " + a.T + " " + m[1] + ")", S: SStr}
+	if strings.HasPrefix(b.T, "lit_") && len(b.T) == 6 {
+		if bs := litBytes(b.T); len(bs) == 1 {
+			return Val{T: fmt.Sprintf("(appendbyte %s %d)", a.T, bs[0]), S: SStr}
+		}
 	}
 	return Val{T: "(scat " + a.T + " " + b.T + ")", S: SStr}
 }
 
-var oneByteLit = regexp.MustCompile(`^\(mkstr \(store \(\(as const \(Array Int Int\)\) 0\) 0 (\d+)\) 1\)$`)
 
 func (fc *FnCtx) safetyOn() bool { return fc.scope == nil && fc.contract != nil && !fc.contract.Extern }
 
